@@ -57,7 +57,7 @@ func (q metadataQuery) Run() queryResult {
 	}
 
 	meta, err := streamMetadata(resp.Body)
-	qr.value, qr.err = meta, err
+	qr.value, qr.err = meta, bodyError(ctx, err)
 	return qr
 }
 
